@@ -20,7 +20,7 @@ import sys
 from . import tlc, svccheck as K, svc as S
 from .common import Verdict, main_wrapper, Machinery, seed
 
-POLICIES = ['eager', ('lag', 1), ('lag', 3), 'blocked']
+POLICIES = ['eager', ('lag', 1), ('lag', 3), 'blocked', 'starved']
 
 
 def compose(rng, policy, mid, ctx, matches, worklist, max_len):
